@@ -348,8 +348,8 @@ def irrelevant_edits(r, doc, opts, info):
 
 def gen_simple(r, rooms_mode=1, big=False):
     """a valid simple-format instance (C01's validity conditions) with names"""
-    nc = r.randint(1, 7 if big else 5)
-    np_ = r.randint(1, 12 if big else 8)
+    nc = r.randint(1, 10 if big else 5)
+    np_ = r.randint(1, 26 if big else 8)
     shape = r.choice([0, 0, 0, 0, 1, 1, 2, 3])   # 0 comfortable, 1 generic, 2 tight / over-subscribed, 3 zero-size courses
     courses = []
     for i in range(nc):
@@ -683,7 +683,7 @@ def stream_e2e_cde(seed, tier, workdir, stream):
     n = scale(tier, 140, 6000)
     cases = []
     for i in range(n):
-        doc, opts, info = gen_export(r, rich=(i % 3 != 2), pre=(i % 4 == 1))
+        doc, opts, info = gen_export(r, rich=(i % 3 != 2), pre=(i % 4 == 1), many=(i % 12 == 6))
         rooms = None
         if r.random() < 0.4:
             rooms = [r.choice([2, 3, 4, 5, 6, 8, 10, 20, 30]) for _ in range(r.randint(1, len(doc["courses"]) + 1))]
@@ -804,7 +804,7 @@ def stream_cli_simple(seed, tier, workdir, stream):
     n = scale(tier, 120, 5000)
     cases = []
     for i in range(n):
-        doc, rooms = gen_simple(r, rooms_mode=1, big=(tier == "thorough" and i % 4 == 0))
+        doc, rooms = gen_simple(r, rooms_mode=1, big=((tier == "thorough" and i % 4 == 0) or i % 8 == 7))
         if i % 10 == 9:
             # an instructor listed twice is still one instructor (fix F10)
             cs = [c for c in doc["courses"] if c["instructors"]]
